@@ -6,6 +6,25 @@ props = [json.loads(l) for l in open(os.path.join(V, "properties.jsonl"))]
 
 MACHINE_NOTE = 'The reference machine (spec/Machine.tla + Values.tla) is a transcription of the intended semantics checked for totality (NotStuck) by TLC; where no language document exists the pinned behaviour is the definition. Numbers outside the modelled domain are not compared.'
 CHECKS = {
+ "C14": dict(
+    level="model_checking",
+    text="Machine.tla models the module table (absent / loading / loaded), runs a module body once as a call in the importing fiber with its own "
+         "globals (built-ins + core classes), delivers ImportError for circular, missing and uncompilable modules to the importing statement, and "
+         "keeps the as-built rule that a module whose body failed stays 'loading'. Seeded import graphs over main + 1-3 modules (self loops, cycles, "
+         "diamonds; imports at top level / in try / in functions / aliased; missing, uncompilable, throwing members; same global names everywhere; "
+         "reads, writes and calls through module objects) are executed by the machine under TLC and replayed on both builds through a module loader "
+         "serving the generated sources.",
+    note=MACHINE_NOTE + " Scenario products are built outside TLC; not exhaustive.",
+    technique="TLA+ reference machine (TLC) + scenario products replayed on the implementation", design="4 C14"),
+ "C15": dict(
+    level="model_checking",
+    text="Machine.tla runs a sequence of snippets on one interpreter state: globals, classes, modules, heap and fibers persist, every snippet gets "
+         "a fresh main fiber, a compile error changes nothing, an uncaught error clears only the failing fiber's frames, reset restores the initial "
+         "globals. Seeded sequences of 2-6 snippets from a catalogue of 23 (definitions and later uses, compile errors, uncaught throws from every "
+         "depth including fibers and finally blocks, imports of good and failing modules, fibers and closures kept across snippets, reset) are "
+         "replayed snippet by snippet on ONE Vm per sequence on both builds; per snippet output and outcome must be equal.",
+    note=MACHINE_NOTE + " The yarel-cli REPL binary itself is not driven (same vm::interpret entry point).",
+    technique="TLA+ reference machine (TLC) + scenario products replayed on the implementation", design="4 C15"),
  "C17": dict(
     level="model_checking",
     text="Machine.tla builds the error a host sees for an uncaught exception exactly as new_error_from_value / runtime_error do: class from the "
